@@ -67,9 +67,15 @@ pub fn yield_with_io<T: EventSource>(resource: &T, is_coroutine: bool) {
         crate::io::thread::PROXY_CO_SENDER.with(|tx| {
             tx.send(es).unwrap();
         });
-        #[cfg(may_verif)]
-        crate::verif::pre_park();
-        std::thread::park();
+        // park until the proxy coroutine has finished this request: a spurious
+        // wake up must not let the thread issue the next request (the proxy
+        // would later subscribe with this one, whose event source is gone)
+        let done = crate::io::thread::PROXY_IO_DONE.with(|d| d.clone());
+        while !done.swap(false, std::sync::atomic::Ordering::Acquire) {
+            #[cfg(may_verif)]
+            crate::verif::pre_park();
+            std::thread::park();
+        }
     }
 }
 
